@@ -79,6 +79,50 @@ class Grid:
         return f"Grid({self.tag})"
 
 
+class NoPickle:
+    """A value that cannot be pickled (like an object holding a lock or an open connection)."""
+
+    def __init__(self, tag: str) -> None:
+        self.tag = tag
+
+    def __eq__(self, other: Any) -> bool:
+        return isinstance(other, NoPickle) and other.tag == self.tag
+
+    def __hash__(self) -> int:
+        return hash(("NoPickle", self.tag))
+
+    def __repr__(self) -> str:
+        return f"NoPickle({self.tag})"
+
+    def __reduce__(self) -> Any:
+        raise TypeError("cannot pickle 'NoPickle' object")
+
+    def __deepcopy__(self, memo: Any) -> "NoPickle":
+        return NoPickle(self.tag)
+
+
+class NoCopy:
+    """A value that can be neither deep-copied nor pickled (it owns a lock, a socket ...)."""
+
+    def __init__(self, tag: str) -> None:
+        self.tag = tag
+
+    def __eq__(self, other: Any) -> bool:
+        return isinstance(other, NoCopy) and other.tag == self.tag
+
+    def __hash__(self) -> int:
+        return hash(("NoCopy", self.tag))
+
+    def __repr__(self) -> str:
+        return f"NoCopy({self.tag})"
+
+    def __reduce__(self) -> Any:
+        raise TypeError("cannot pickle 'NoCopy' object")
+
+    def __deepcopy__(self, memo: Any) -> Any:
+        raise TypeError("cannot deep-copy 'NoCopy' object")
+
+
 class _Row:
     def __init__(self, tag: str, i: Any) -> None:
         self.tag, self.i = tag, i
@@ -155,6 +199,10 @@ def compute(fn: str, spec: Dict[str, Any], site: Optional[str], args: Tuple[Any,
         return "s" + term(fn, full, kwargs)[1][:4]
     if kind == "grid":
         return Grid(term(fn, full, kwargs)[1])
+    if kind == "nopickle":
+        return NoPickle(term(fn, full, kwargs)[1])
+    if kind == "nocopy":
+        return NoCopy(term(fn, full, kwargs)[1])
     if kind == "int":
         return zlib.crc32(_canon((fn, full, tuple(sorted(kwargs.items())))).encode()) % 6 + 1
     if kind == "id":
@@ -313,7 +361,8 @@ def _ret_eval(ret: Any, env: Dict[str, Any], ev: Callable[[Any, Dict[str, Any]],
 
 
 def build(P: Dict[str, Any], *, is_async: bool = False, mc: int = 1, decorate_attrs: bool = True,
-          on_stmt: Optional[Callable[[int], None]] = None, xns_out: Optional[Dict[str, Any]] = None) -> Built:
+          on_stmt: Optional[Callable[[int], None]] = None, xns_out: Optional[Dict[str, Any]] = None,
+          shared_subs: Optional[Dict[str, "Built"]] = None) -> Built:
     """Build the DAG described by P.  ``decorate_attrs=False`` leaves priority / is_sequential at their
     defaults so that they can be applied later through config_from_*."""
     import tawazi
@@ -322,7 +371,10 @@ def build(P: Dict[str, Any], *, is_async: bool = False, mc: int = 1, decorate_at
     subs: Dict[str, Built] = {}
     for st in P["body"]:
         if st["k"] == "sub":
-            subs[st["out"]] = build(st["prog"], is_async=False, mc=mc, decorate_attrs=decorate_attrs)
+            if shared_subs and st["prog"]["name"] in shared_subs:
+                subs[st["out"]] = shared_subs[st["prog"]["name"]]  # an inner DAG object built earlier (and used elsewhere)
+            else:
+                subs[st["out"]] = build(st["prog"], is_async=False, mc=mc, decorate_attrs=decorate_attrs)
 
     xns: Dict[str, Any] = {}
     for fn, spec in P["fns"].items():
